@@ -850,6 +850,14 @@ def init_results_checked(ctx, tag):
             for i in f.calls("reset"):
                 if f.text(f.nodes[i].get("recv", -1)) == V:
                     ev.setdefault(i, []).append(("clear", "refused"))
+            for i in f.calls():
+                # handed by mutable reference to a function / closure that may replace it (`renew(plugin)` doing plugin.reset(create()))
+                nd_ = f.nodes[i]
+                pts_ = nd_.get("ptypes") or []
+                for k_, a_ in enumerate(nd_.get("args", [])):
+                    an_ = f.nodes[f.strip(a_)]
+                    if an_.get("k") == "ref" and an_.get("name") == V and k_ < len(pts_) and pts_[k_].rstrip().endswith("&") and not pts_[k_].lstrip().startswith("const "):
+                        ev.setdefault(i, []).append(("clear", "refused"))
             for d_ in f.all("decl"):
                 # a declaration inside a loop body makes a fresh object on every iteration
                 if any(v_["name"] == V for v_ in f.nodes[d_].get("vars", [])) and f.pos_of(d_) is not None:
